@@ -1,6 +1,6 @@
 //! Drivers: the two systems under test behind one interface, fed through real byte channels.
 
-use crate::model::{Cb, DOp, Kind, Snap, Write};
+use crate::model::{Cb, Ctl, DOp, Kind, Snap, Write};
 use bytes::BytesMut;
 use futures::future::BoxFuture;
 use futures::FutureExt;
@@ -81,6 +81,8 @@ pub trait Sys {
     fn drain_out(&mut self) -> usize;
     /// Perform a local write through the downlink's handle (op index `idx`).
     fn local_write(&mut self, idx: usize, w: &Write);
+    /// Perform a control action (op index `idx`).
+    fn control(&mut self, idx: usize, c: &Ctl);
     /// `Some` once the task / agent has finished.
     fn finished(&self) -> Option<Result<(), String>>;
 }
@@ -217,6 +219,17 @@ impl Sys for ClientSys {
         }
     }
 
+    fn control(&mut self, _idx: usize, c: &Ctl) {
+        match c {
+            Ctl::DropWriters => {
+                self.value_tx = None;
+                self.map_tx = None;
+            }
+            Ctl::DropOutput => self.out_rx = None,
+            Ctl::Stop => {}
+        }
+    }
+
     fn finished(&self) -> Option<Result<(), String>> {
         self.result.clone()
     }
@@ -347,7 +360,7 @@ impl<S: Sys> Driver<S> {
     /// Interpret the op list. `settle_after[i]` says whether to run to a fixpoint after op i
     /// (always done around local writes so that their position in the notification order is
     /// well defined).
-    pub fn run(&mut self, ops: &[DOp], settle_after: impl Fn(usize) -> bool) {
+    pub fn run(&mut self, ops: &[DOp], settle_after: impl Fn(usize) -> bool, close_input: bool) {
         self.settle();
         for (i, op) in ops.iter().enumerate() {
             match op {
@@ -371,10 +384,21 @@ impl<S: Sys> Driver<S> {
                     self.sys.local_write(i, w);
                     self.settle();
                 }
+                DOp::C(c) => {
+                    self.settle();
+                    self.rec.cur.store(i, Ordering::SeqCst);
+                    self.sys.control(i, c);
+                    self.settle();
+                }
             }
         }
         self.rec.cur.store(ops.len(), Ordering::SeqCst);
         self.settle();
+        if close_input {
+            // end of the input stream (the runtime drops its end)
+            *self.sys.writer() = None;
+            self.settle();
+        }
     }
 }
 
